@@ -77,13 +77,14 @@ struct Tracer
 	}
 	// last token of every observation: what the GENERATED allocate / deallocate + pool Allocate / Deallocate must compute for this call
 	// (destination -1 = pool | raw size, pool re-created, allocCount after, mCachedCount after), "g-" for the other events
-	void ev(const std::string& e, const std::string& o, const std::string& gen = "g-")
+	// after it: what the GENERATED pvNewBlock must compute for an allocation that takes a block from an existing head buffer ("n-" otherwise)
+	void ev(const std::string& e, const std::string& o, const std::string& gen = "g-", const std::string& nb = "n-")
 	{
 		if (!on) return;
 		++n_events;
 		if (events.empty()) { events = "K " + cfg; obs = "K"; }
 		events += " ; "; obs += " ; ";
-		events += e; obs += o + " " + gen;
+		events += e; obs += o + " " + gen + " " + nb;
 	}
 };
 inline Tracer& G() { static Tracer t; return t; }
@@ -202,6 +203,15 @@ struct MonT : PostLogT<PoolOf<PP>>, momo::stdish::unsynchronized_pool_allocator<
 		if (!hok) ++g.h_violations;
 		size_t cnt0 = pool->GetAllocateCount(); size_t bs0 = pool->GetBlockSize(), al0 = pool->GetBlockAlignment();
 		size_t cached0 = pool->mCachedCount;
+		// pre-state of the head buffer when this call will go through MemPool::pvNewBlock on an EXISTING head buffer (input of the generated pvNewBlock)
+		std::string nb_in = " - - - -"; bool nb_on = false; momo::internal::Byte* h0 = nullptr; momo::internal::Byte* nx0 = nullptr;
+		if (n == 1 && Pool::blockCount > 1 && P::pvIsEqual(mp, pool->GetParams()) && !(pool->pvUseCache() && pool->mCachedCount > 0) && pool->mFreeBufferHead != nullptr)
+		{
+			h0 = pool->mFreeBufferHead; auto by = pool->pvGetBufferBytes(h0); nx0 = pool->pvGetNextBuffer(h0);
+			int nf = int(pool->pvGetNextFreeBlockIndex(pool->pvGetBlock(h0, by.firstFreeBlockIndex)));
+			nb_in = " " + std::to_string(int(by.firstFreeBlockIndex)) + " " + std::to_string(int(by.freeBlockCount)) + " " + (nx0 == nullptr ? "1" : "0") + " " + std::to_string(nf);
+			nb_on = true;
+		}
 		g.pre();
 		g.pending = "A " + std::to_string(hid) + " " + std::to_string(n);
 		T* p;
@@ -234,10 +244,16 @@ struct MonT : PostLogT<PoolOf<PP>>, momo::stdish::unsynchronized_pool_allocator<
 		if (g.on)
 		{
 			int b = g.nb++; g.blk[p] = b; g.info[p] = bi;
-			g.ev("A " + std::to_string(hid) + " " + std::to_string(n) + " " + std::to_string(g.allocs()),
+			std::string nb_out = "n-";
+			if (nb_on)
+			{	// the real pvNewBlock's effect: where the head went, and the BufferBytes now stored in the old head buffer
+				auto by1 = pool->pvGetBufferBytes(h0); momo::internal::Byte* h1 = pool->mFreeBufferHead;
+				nb_out = "n" + std::string(h1 == h0 ? "0" : (nx0 != nullptr && h1 == nx0) ? "1" : "2") + ":" + std::to_string(int(by1.firstFreeBlockIndex)) + ":" + std::to_string(int(by1.freeBlockCount));
+			}
+			g.ev("A " + std::to_string(hid) + " " + std::to_string(n) + " " + std::to_string(g.allocs()) + nb_in,
 				dest + " " + tail() + " " + (hok ? "1" : "0") + " 1 1",
 				"g" + (pooled ? std::string("-1") : std::to_string(long(bi.rawsize))) + ":" + (reparam ? "1" : "0") + ":"
-					+ std::to_string(pool->GetAllocateCount()) + ":" + std::to_string(pool->mCachedCount));
+					+ std::to_string(pool->GetAllocateCount()) + ":" + std::to_string(pool->mCachedCount), nb_out);
 		}
 		return p;
 	}
